@@ -103,6 +103,7 @@ type interpreter struct {
 	symKeySeq          int
 	permSeq            int
 	hooks              map[string]value // per-path harness state (vh)
+	os                 *osModel         // process environment model, set while vh.RunCLI runs
 }
 
 type deferred struct {
